@@ -15,7 +15,7 @@ def add(pid, engine, cat, text, ref, note, technique):
     CHECKS[pid] = dict(engine=engine, cat=cat, text=text, ref=ref, note=note, technique=technique)
 
 add("C19", "E5 endpoint-enum", "model_checking",
-    "Bounded-exhaustive: every string over a 16-symbol alphabet (scheme letters, separators, brackets, digits, newline, "
+    "Bounded-exhaustive: every string over a 18-symbol alphabet (incl. sign characters) (scheme letters, separators, brackets, digits, newline, "
     "2-byte and Unicode-digit characters) up to length 5/6, the same after 5 scheme-like prefixes, and a scheme x host x port "
     "product, each run through the real parser and compared with an independent reference parser; every accepted string is "
     "formatted and re-parsed. Totality, strictness and the parse-format-parse law are universally quantified over inputs; "
